@@ -6,7 +6,6 @@ package c05
 import (
 	"bytes"
 	"fmt"
-	"math/rand"
 	"sort"
 	"strings"
 
@@ -68,241 +67,16 @@ func plan(seed int64, tier string) []vrt.Case {
 	return cs
 }
 
-// world is one library-vs-peer session setup.
-type world struct {
-	libCall, peerCall string
-	locator           string
-	ua                fbb.UserAgent
-	aux               []string
-	libMaster         bool
-	motd              []string
-	gzip              bool
-	seg               int
-	libMsgs           []b2fx.MsgSpec                // queued at the library
-	peerMsgs          []b2fx.MsgSpec                // queued at the peer
-	truth             map[string][]byte             // canonical bytes of every message
-	libPolicy         map[string]fbb.ProposalAnswer // library handler's answers to peer proposals
-	batched           bool
-	plan              b2fref.PeerPlan
-	challengePw       string
-	tag               string
-}
-
-var answerTokens = map[byte][]string{
-	'+': {"+", "Y", "y", "!0", "A0", "a0"},
-	'-': {"-", "N", "n", "R", "r"},
-	'=': {"=", "L", "l", "H", "h"},
-}
-
-var peerSIDs = []string{"[WL2K-5.0-B2FWIHJM$]", "[RMS Express-1.5.9.0-B2FHM$]", "[wl2kgo-0.1a-B2FHM$]", "[FBB-7.00-AB1B2FHMX$]", "[paclink-unix-0.5-B2FIHM$]", "[WL2K-B2FHM$]", "[BPQ-6.0.24.1-B2FWIHJM$]"}
-
-func precedence(subject string) int {
-	m := new(fbb.Message)
-	m.Header = fbb.Header{}
-	m.Header.Set("Subject", subject)
-	s := m.Subject()
-	switch {
-	case strings.Contains(s, "//WL2K Z/"):
-		return 0
-	case strings.Contains(s, "//WL2K O/"):
-		return 1
-	case strings.Contains(s, "//WL2K P/"):
-		return 2
-	}
-	return 3
-}
-
-func asciiTitle(r *rand.Rand, i int) string {
-	switch r.Intn(4) {
-	case 0:
-		return "t"
-	case 1:
-		return strings.Repeat("T", 80)
-	default:
-		return fmt.Sprintf("peer message %d //WL2K R/", i)
-	}
-}
-
-func genWorld(r *rand.Rand, tag string) (*world, error) {
-	w := &world{truth: map[string][]byte{}, libPolicy: map[string]fbb.ProposalAnswer{}, tag: tag}
-	calls := []string{"N0LIB", "LA5NTA-1", "W1AW-15", "N0LIB-T"}
-	w.libCall = calls[r.Intn(len(calls))]
-	w.peerCall = []string{"N0PEER", "LA1B-10", "WL2K"}[r.Intn(3)]
-	w.locator = []string{"JO29PJ", "JP20qe", "", "FN31"}[r.Intn(4)]
-	w.ua = []fbb.UserAgent{{Name: "wl2kgo", Version: "0.1a"}, {Name: "Pat", Version: "0.16.0"}, {Name: "x", Version: "1"}}[r.Intn(3)]
-	for i, n := 0, r.Intn(4); i < n; i++ {
-		w.aux = append(w.aux, fmt.Sprintf("AUX%d", i))
-	}
-	w.libMaster = r.Intn(2) == 0
-	w.gzip = r.Intn(6) == 0
-	w.seg = r.Intn(4)
-	w.batched = r.Intn(2) == 0
-	if w.libMaster && r.Intn(2) == 0 {
-		w.motd = []string{"Welcome", "This node runs an exercise"}[:1+r.Intn(2)]
-	}
-	count := func() int {
-		switch r.Intn(5) {
-		case 0:
-			return 0
-		case 1:
-			return 1
-		case 2:
-			return 5 + r.Intn(3)
-		default:
-			return r.Intn(13)
-		}
-	}
-	nl, np := count(), count()
-	pl := &w.plan
-	pl.Seed = r.Int63()
-	pl.Master = !w.libMaster
-	pl.MyCall, pl.TheirCall = w.peerCall, w.libCall
-	pl.SID = peerSIDs[r.Intn(len(peerSIDs))]
-	pl.Gzip = w.gzip
-	if w.gzip {
-		pl.SID = strings.Replace(pl.SID, "$]", "G$]", 1)
-	}
-	if pl.Master {
-		if r.Intn(2) == 0 {
-			pl.MOTD = []string{"Welcome to the reference node", "Stats Total connects = 2580 Total messages = 3900", "*** MTD Stats Total connects = 2580 Total messages = 3900"}[:1+r.Intn(3)]
-		}
-		pl.Prompt = []string{w.peerCall + " DE " + w.libCall + ">", "CMS via exercise >", ">"}[r.Intn(3)]
-		if r.Intn(5) == 0 {
-			pl.Challenge = fmt.Sprintf("%08d", r.Intn(100000000))
-			w.challengePw = "S3cretPw"
-		}
-	} else {
-		pl.Comment = fmt.Sprintf("; %s DE %s (JO59)", w.libCall, w.peerCall)
-	}
-	switch r.Intn(3) {
-	case 0:
-		pl.FW = nil
-	case 1:
-		pl.FW = []string{w.peerCall}
-	case 2:
-		pl.FW = []string{w.peerCall, "AUXP1|12345678", "AUXP2"}
-	}
-	pl.Answers = map[string]string{}
-	pl.Comments = r.Intn(3)
-	pl.EarlyFQ = r.Intn(4) == 0
-	pl.DupInBlock = r.Intn(6) == 0
-	pl.MaxPerBlock = []int{5, 5, 5, 1, 3}[r.Intn(5)]
-	if r.Intn(4) == 0 {
-		pl.BlockSize = []int{1, 125, 250, 255, 256}[r.Intn(5)]
-	}
-	pl.ExpectUAName, pl.ExpectUAVersion, pl.ExpectLocator = w.ua.Name, w.ua.Version, w.locator
-	if w.locator == "" {
-		pl.ExpectLocator = ""
-	}
-	for i := 0; i < nl; i++ {
-		m := b2fx.GenMsg(r, b2fx.GenMID(r, "L", i), w.libCall, w.peerCall)
-		if len(m.Body) > 12000 {
-			m.Body = m.Body[:12000]
-		}
-		c, err := m.Canonical()
-		if err != nil {
-			return nil, err
-		}
-		w.truth[m.MID] = c
-		w.libMsgs = append(w.libMsgs, m)
-		kind := []byte{'+', '+', '+', '+', '-', '='}[r.Intn(6)]
-		toks := answerTokens[kind]
-		pl.Answers[m.MID] = toks[r.Intn(len(toks))]
-	}
-	for i := 0; i < np; i++ {
-		m := b2fx.GenMsg(r, b2fx.GenMID(r, "P", i), w.peerCall, w.libCall)
-		m.Subject = asciiTitle(r, i)
-		if len(m.Body) > 12000 {
-			m.Body = m.Body[:12000]
-		}
-		c, err := m.Canonical()
-		if err != nil {
-			return nil, err
-		}
-		w.truth[m.MID] = c
-		w.peerMsgs = append(w.peerMsgs, m)
-		w.libPolicy[m.MID] = []fbb.ProposalAnswer{fbb.Accept, fbb.Accept, fbb.Accept, fbb.Reject, fbb.Defer}[r.Intn(5)]
-		pl.Outbound = append(pl.Outbound, b2fref.OutMsg{MID: m.MID, Type: []string{"EM", "EM", "CM"}[r.Intn(3)], Title: m.Subject, Data: c})
-	}
-	return w, nil
-}
-
-func (w *world) describe() map[string]any {
-	lib := []string{}
-	for _, m := range w.libMsgs {
-		lib = append(lib, fmt.Sprintf("%s answer %q %s", m.MID, w.plan.Answers[m.MID], m.Shape))
-	}
-	peer := []string{}
-	for _, m := range w.peerMsgs {
-		peer = append(peer, fmt.Sprintf("%s policy %c %s", m.MID, rune(w.libPolicy[m.MID]), m.Shape))
-	}
-	return map[string]any{"lib_call": w.libCall, "peer_call": w.peerCall, "lib_master": w.libMaster, "ua": w.ua, "aux": w.aux, "locator": w.locator,
-		"gzip": w.gzip, "seg": w.seg, "motd": w.motd, "lib_msgs": lib, "peer_msgs": peer, "peer_plan": w.plan}
-}
-
-func exec(o *vrt.Obs, w *world) {
+func exec(o *vrt.Obs, w *b2fx.PeerWorld) {
 	o.Evals++
-	b2fx.SetGzip(w.gzip)
-	defer b2fx.SetGzip(false)
-	lg := &mem.Log{}
-	st := mem.NewStation("L", lg)
-	st.Batched = w.batched
-	truth := map[string]b2fref.LibMsg{}
-	for _, m := range w.libMsgs {
-		st.Queue(m.MID, w.truth[m.MID])
-		truth[m.MID] = b2fref.LibMsg{Data: w.truth[m.MID], Precedence: precedence(m.Subject)}
-	}
-	for mid, a := range w.libPolicy {
-		st.Policy[mid] = a
-	}
-	side := &b2fx.Side{Call: w.libCall, Station: st, Master: w.libMaster, MOTD: w.motd}
-	side.Setup = func(s *fbb.Session) {
-		s.SetUserAgent(w.ua)
-		for _, a := range w.aux {
-			s.AddAuxiliaryAddress(fbb.AddressFromString(a))
-		}
-		if w.challengePw != "" {
-			s.SetSecureLoginHandleFunc(func(fbb.Address) (string, error) { return w.challengePw, nil })
-		}
-	}
-	sess := b2fx.NewSession(side, &b2fx.Side{Call: w.peerCall})
-	// locator is a NewSession argument in b2fx (fixed); rebuild with the scenario's locator
-	sess = fbb.NewSession(w.libCall, w.peerCall, w.locator, st.AsHandler())
-	sess.IsMaster(w.libMaster)
-	sess.SetLogger(b2fx.Discard)
-	if len(w.motd) > 0 {
-		sess.SetMOTD(w.motd...)
-	}
-	side.Setup(sess)
-
-	ea, eb, link := vpipe.New(vpipe.Plan{Seed: w.plan.Seed, Seg: w.seg, CutDir: vpipe.NoCut, DetectDeadlock: true}, false)
-	type libOut struct {
-		stats fbb.TrafficStats
-		err   error
-		pan   any
-		stack string
-	}
-	done := make(chan libOut, 1)
-	go func() {
-		var lo libOut
-		defer func() {
-			if r := recover(); r != nil {
-				lo.pan, lo.stack = r, string(debugStack())
-			}
-			done <- lo
-		}()
-		lo.stats, lo.err = sess.Exchange(ea)
-	}()
-	res := b2fref.Run(eb, w.plan, truth)
-	lo := <-done
-	lst := link.State()
-	ev := lg.Events()
-	b2fx.EventCounts(o, ev)
+	run := w.Run(false, [2][]vpipe.Edit{})
+	res := run.Res
+	b2fx.EventCounts(o, run.Events)
 	before := len(o.Violations)
-	judge(o, w, res, lo.stats, lo.err, lo.pan, lo.stack, lst, st, ev, truth)
+	judge(o, w, run)
 	for i := before; i < len(o.Violations); i++ {
 		if o.Violations[i].Detail == nil {
-			o.Violations[i].Detail = map[string]any{"world": w.describe(), "handshake_lines": res.HandshakeLines, "fs_received": res.FSReceived, "fs_sent": res.AnswersSent, "lib_error": res.LibError, "peer_err": fmt.Sprint(res.Err)}
+			o.Violations[i].Detail = map[string]any{"world": w.Describe(), "handshake_lines": res.HandshakeLines, "fs_received": res.FSReceived, "fs_sent": res.AnswersSent, "lib_error": res.LibError, "peer_err": fmt.Sprint(res.Err)}
 		}
 	}
 	o.Count("sessions", 1)
@@ -310,8 +84,7 @@ func exec(o *vrt.Obs, w *world) {
 	o.Count("proposal_blocks_judged", int64(len(res.Blocks)))
 	o.Count("frames_from_lib_judged", int64(len(res.Received)))
 	o.Count("frames_to_lib_delivered", int64(len(res.Delivered)))
-	for sz, n := range res.DataBlocks {
-		_ = sz
+	for _, n := range res.DataBlocks {
 		o.Count("data_blocks_from_lib", int64(n))
 	}
 	for _, fs := range res.AnswersSent {
@@ -320,16 +93,17 @@ func exec(o *vrt.Obs, w *world) {
 		}
 	}
 	if len(res.Received)+len(res.Delivered) > 0 {
-		o.Sig("%s %v %v %v", w.tag, res.ReceivedSeq, res.Delivered, res.AnswersSent)
+		o.Sig("%s %v %v %v", w.Tag, res.ReceivedSeq, res.Delivered, res.AnswersSent)
 	}
 	if o.Sample == nil && len(res.Received) > 0 && len(res.Delivered) > 0 {
-		o.Sample = w.describe()
+		o.Sample = w.Describe()
 	}
 }
 
-func judge(o *vrt.Obs, w *world, res *b2fref.Result, stats fbb.TrafficStats, lerr error, pan any, stack string, lst vpipe.State, st *mem.Station, ev []mem.Event, truth map[string]b2fref.LibMsg) {
-	if pan != nil {
-		o.Violations = append(o.Violations, vrt.PanicViolation(pan, []byte(stack)))
+func judge(o *vrt.Obs, w *b2fx.PeerWorld, run *b2fx.PeerRun) {
+	res, stats, lerr, lst, st, ev, truth := run.Res, run.Lib.Stats, run.Lib.Err, run.Link, run.Station, run.Events, run.Truth
+	if run.Lib.Panic != nil {
+		o.Violations = append(o.Violations, vrt.PanicViolation(run.Lib.Panic, []byte(run.Lib.Stack)))
 		return
 	}
 	for _, c := range append(res.Complaints, res.CheckOrder(truth)...) {
@@ -360,15 +134,15 @@ func judge(o *vrt.Obs, w *world, res *b2fref.Result, stats fbb.TrafficStats, ler
 		pending[m] = true
 	}
 	var wantSent, wantRecv []string
-	for _, m := range w.libMsgs {
-		a, _ := b2fref.ParseAnswers(w.plan.Answers[m.MID])
+	for _, m := range w.LibMsgs {
+		a, _ := b2fref.ParseAnswers(w.Plan.Answers[m.MID])
 		ss, sd := cnt[mem.EvSetSent+"|"+m.MID], cnt[mem.EvSetDeferred+"|"+m.MID]
-		desc := fmt.Sprintf("library message %s answered %q", m.MID, w.plan.Answers[m.MID])
+		desc := fmt.Sprintf("library message %s answered %q", m.MID, w.Plan.Answers[m.MID])
 		switch a[0].Kind {
 		case '+':
 			wantSent = append(wantSent, m.MID)
 			got, ok := res.Received[m.MID]
-			if !ok || !bytes.Equal(got, w.truth[m.MID]) {
+			if !ok || !bytes.Equal(got, w.Truth[m.MID]) {
 				o.Violate("outcome-not-received", "%s: the peer did not receive the queued message", desc)
 			}
 			if len(ss) != 1 || ss[0].Flag || len(sd) != 0 || pending[m.MID] {
@@ -389,14 +163,14 @@ func judge(o *vrt.Obs, w *world, res *b2fref.Result, stats fbb.TrafficStats, ler
 	for _, m := range res.Delivered {
 		delivered[m]++
 	}
-	for _, m := range w.peerMsgs {
+	for _, m := range w.PeerMsgs {
 		pi := cnt[mem.EvProcessInbound+"|"+m.MID]
-		desc := fmt.Sprintf("peer message %s (handler policy %c)", m.MID, rune(w.libPolicy[m.MID]))
-		switch w.libPolicy[m.MID] {
+		desc := fmt.Sprintf("peer message %s (handler policy %c)", m.MID, rune(w.LibPolicy[m.MID]))
+		switch w.LibPolicy[m.MID] {
 		case fbb.Accept:
 			wantRecv = append(wantRecv, m.MID)
-			if len(pi) != 1 || pi[0].Hash != mem.Hash(w.truth[m.MID]) || delivered[m.MID] != 1 {
-				o.Violate("outcome-inbound-accept", "%s: ProcessInbound=%d (hash ok=%v) confirmed deliveries=%d", desc, len(pi), len(pi) == 1 && pi[0].Hash == mem.Hash(w.truth[m.MID]), delivered[m.MID])
+			if len(pi) != 1 || pi[0].Hash != mem.Hash(w.Truth[m.MID]) || delivered[m.MID] != 1 {
+				o.Violate("outcome-inbound-accept", "%s: ProcessInbound=%d (hash ok=%v) confirmed deliveries=%d", desc, len(pi), len(pi) == 1 && pi[0].Hash == mem.Hash(w.Truth[m.MID]), delivered[m.MID])
 			}
 		default:
 			if len(pi) != 0 || delivered[m.MID] != 0 {
@@ -415,7 +189,7 @@ func judge(o *vrt.Obs, w *world, res *b2fref.Result, stats fbb.TrafficStats, ler
 	}
 	// forwarder list handed to GetOutbound == the peer's ;FW entries (hashes stripped)
 	var wantFW []string
-	for _, f := range w.plan.FW {
+	for _, f := range w.Plan.FW {
 		wantFW = append(wantFW, strings.ToUpper(strings.Split(f, "|")[0]))
 	}
 	for _, e := range ev {
@@ -432,9 +206,9 @@ func judge(o *vrt.Obs, w *world, res *b2fref.Result, stats fbb.TrafficStats, ler
 		}
 	}
 	// ;FW of the station: own call + auxiliary addresses in registration order
-	wantLine := ";FW: " + strings.Join(append([]string{strings.ToUpper(w.libCall)}, w.aux...), " ")
+	wantLine := ";FW: " + strings.Join(append([]string{strings.ToUpper(w.LibCall)}, w.Aux...), " ")
 	gotLine := res.LibFW
-	if w.plan.Challenge != "" {
+	if w.Plan.Challenge != "" {
 		// hashes of auxiliary addresses are C16's business
 		var f []string
 		for _, x := range strings.Fields(strings.TrimPrefix(gotLine, ";FW:")) {
